@@ -182,21 +182,28 @@ def cmdGetRange (c : Ctx) (db : Db) (k : Bytes) (start stop : Int) : R :=
 def hugeAlloc : Int := 536870912   -- 512 MiB, Redis' own string limit
 
 def cmdSetRange (c : Ctx) (db : Db) (k : Bytes) (off : Int) (v : Bytes) : R :=
-  if off < 0 then R.crashed db "setRange: slice bounds out of range (negative offset)"
-  else if off + v.length > hugeAlloc then R.crashed db "setRange: allocation of offset bytes (no 512MB limit)"
-  else
+  let crash? : Option String :=
+    if off < 0 then some "setRange: slice bounds out of range (negative offset)"
+    else if off + v.length > hugeAlloc then some "setRange: allocation of offset bytes (no 512MB limit)"
+    else none
   match db.live c.now k with
   | some ent =>
     match ent.val with
     | .str b =>
-      let padded := if b.length < off.toNat then b ++ List.replicate (off.toNat - b.length) 0 else b
-      let res := padded.take off.toNat ++ v ++ padded.drop (off.toNat + v.length)
-      R.ok (db.put k (.str res) ent.exp) (vInt res.length)
+      match crash? with
+      | some site => R.crashed db site
+      | none =>
+        let padded := if b.length < off.toNat then b ++ List.replicate (off.toNat - b.length) 0 else b
+        let res := padded.take off.toNat ++ v ++ padded.drop (off.toNat + v.length)
+        R.ok (db.put k (.str res) ent.exp) (vInt res.length)
     | _ => R.ok db wrongType
   | none =>
-    if v.isEmpty && !c.q.setrangeEmptyCreates then R.ok db (.int 0) else
-    let res := List.replicate off.toNat 0 ++ v
-    R.ok (db.put k (.str res) none) (vInt res.length)
+    match crash? with
+    | some site => R.crashed db site
+    | none =>
+      if v.isEmpty && !c.q.setrangeEmptyCreates then R.ok db (.int 0) else
+      let res := List.replicate off.toNat 0 ++ v
+      R.ok (db.put k (.str res) none) (vInt res.length)
 
 /-- the Go overflow test of `addInt`: `(newVal > value) != (delta > 0)` on wrapped int64 -/
 def goAddOverflow (value delta : Int) : Bool :=
@@ -334,20 +341,20 @@ def cmdIncrByFloat (c : Ctx) (db : Db) (k : Bytes) (delta : Bytes) : R :=
 /-! ### LCS (`longestSeq.go`), bytes = runes for ASCII input -/
 
 /-- one row of the classic dynamic programme: `prev[j] = lcs (x[:i]) (y[:j])` -/
-def lcsRowGo (a : UInt8) : List UInt8 → List Nat → Nat → Nat → List Nat
+def lcsRowGo {α} [BEq α] (a : α) : List α → List Nat → Nat → Nat → List Nat
   | [], _, _, _ => []
   | b :: ys, p :: ps, diag, left =>
     let v := if a == b then diag + 1 else max p left
     v :: lcsRowGo a ys ps p v
   | _ :: _, [], _, _ => []
 
-def lcsRow (a : UInt8) (y : List UInt8) (prev : List Nat) : List Nat :=
+def lcsRow {α} [BEq α] (a : α) (y : List α) (prev : List Nat) : List Nat :=
   match prev with
   | [] => []
   | p0 :: ps => 0 :: lcsRowGo a y ps p0 0
 
 /-- length of the longest common subsequence -/
-def lcsLen (x y : List UInt8) : Nat :=
+def lcsLen {α} [BEq α] (x y : List α) : Nat :=
   let row0 := List.replicate (y.length + 1) 0
   (x.foldl (fun row a => lcsRow a y row) row0).getLast?.getD 0
 
